@@ -7,7 +7,8 @@ Transfer clause (Transfer.tla, Transfer_MBT, Transfer_Trace):
       delivered as real wire messages to the real XferManager / TransferManager receivers and
       done()/reassemble_chunks() are compared with TLC's observation after every packet;
   B2  production-size transfers with shuffled/duplicated arrivals, validated by TLC.
-Inventory / animation / mesh clauses: see harness/c20_codecs.py-style sections below.
+Inventory clause (SchemaText.tla, SchemaText_MBT): B3 rows over reflected field tables (see _inventory).
+Animation / mesh clauses (AssetLayout.tla, AssetLayout_Trace): B2 layout records (see _assets).
 """
 from __future__ import annotations
 
@@ -1041,13 +1042,30 @@ def run(chk: Check):
     chk.cov["rule"] = ("transfer: B3 sender pieces at the real chunk size for payload lengths around every boundary; B1 every "
                        "arrival sequence with duplicates/foreign packets of the bounded model (scaled chunk size) delivered as "
                        "real wire messages to the real receivers, done()/reassemble_chunks() compared after every packet; "
-                       "B2 production-size shuffled transfers validated by TLC. non-trivial = arrival of a duplicate or of a "
-                       "piece older than one already present; multi-piece walks.")
+                       "B2 production-size shuffled transfers validated by TLC. inventory: B3 one row per (schema, set of "
+                       "optional fields carrying a value, flavour text/legacy/ais, link) -- TLC checks the round-trip laws on "
+                       "the reflected field tables and prints token lines / key sets; each row is replayed with generated "
+                       "values through to_str/from_str, to_llsd/from_llsd at node and model level; every enum member through "
+                       "its lookup name. animation/mesh: generated models, layout (sizes, count positions, segment placement) "
+                       "recomputed by TLC, round-trip equalities recorded. non-trivial = duplicate/out-of-order arrivals, "
+                       "multi-piece walks, rows with at least one optional field, animations with key frames, meshes with "
+                       ">= 3 segments.")
     chk.assumptions += [
         "transfer: packets reach the receivers through MessageHandler.handle() as deserialized wire messages; the event loop "
         "is pumped between packets (the pump task's 5 s timeout never fires)",
         "transfer: the sender end-marks exactly the last piece and never sends a piece beyond it",
         "transfer B2: equality reassemble_chunks() == payload is a recorded observation; the payload bytes are Payload(n) of the spec",
+        "inventory: field tables (order, kind, optional, llsd_only, include_none, llsd_name, nesting) and lookup names are "
+        "reflected from the code; their meaning (Lines/Parse/Keys/FromKeys, AIS renames and link rules) is the spec's",
+        "inventory: values stay inside the legacy format's domain: strings without TAB/CR/LF/'|' and without leading blanks, "
+        "U32 masks/flags, whole-second dates, metadata of str/int/bool/real/uuid/list/map; llsd_only fields (category version, "
+        "permissions.is_owner_group) cannot travel in the text (TextLaw says exactly that) and are expected to round-trip only in LLSD",
+        "inventory AIS: a category has type CATEGORY; a link item has an asset id, type LINK and the permissions / sale info that "
+        "from_llsd fills in (AIS does not carry them)",
+        "inventory: equality is the models' own __eq__ (trusted observation); replay runs under TZ=America/New_York",
+        "animation/mesh: float contents are opaque to TLC; the model under test is the parser's image of a generated model, plus "
+        "an exactly representable part (binary fractions for version (0,1); range end points/unit quaternions/zero for version "
+        "(1,0) and for mesh vertex 0) that must survive the first serialise-parse unchanged; zlib/LLSD bodies are opaque",
     ]
     _transfer(chk)
     _inventory(chk)
